@@ -69,6 +69,11 @@ func (ex *Exec) writeObj(st *State, key, ref string) {
 	if strings.HasPrefix(key, "F|") {
 		// ghost fields named by update clauses are writable by definition; handled via modAllowed too
 	}
+	for _, l := range ex.modAllowed {
+		if l.kind == "anykey" && strings.Contains(key, l.sub) {
+			return
+		}
+	}
 	var allow []string
 	allow = append(allow, "(> "+ref+" "+ex.preState.allocCtr+")")
 	for _, l := range ex.modAllowed {
@@ -112,6 +117,11 @@ func (ex *Exec) writeMem(st *State, keys []string, base, lo, hi string) {
 		return
 	}
 	key := keys[0]
+	for _, l := range ex.modAllowed {
+		if l.kind == "anykey" && strings.Contains(key, l.sub) {
+			return
+		}
+	}
 	var allow []string
 	allow = append(allow, "(> "+base+" "+ex.preState.allocCtr+")")
 	allow = append(allow, app("bvuge", lo, hi)) // empty range
@@ -169,6 +179,16 @@ func (ex *Exec) callAssigns(st *State, locs []modLoc) {
 	}
 	for _, l := range locs {
 		switch l.kind {
+		case "anykey":
+			ok := false
+			for _, a := range ex.modAllowed {
+				if a.kind == "anykey" && strings.Contains(l.sub, a.sub) {
+					ok = true
+				}
+			}
+			if !ok {
+				ex.obligeHere(st, "assigns", "any:"+l.sub, "false", "callee may write any "+l.sub+" state")
+			}
 		case "field", "map":
 			for _, k := range l.keys {
 				ex.writeObj(st, k, l.ref)
